@@ -24,7 +24,8 @@ PARTIAL = ["proved in Lean for all tapes: ShuffleSequences, rand.Perm, Sample, R
            "output and by exact replay): AddGaps, Swap, Recombine, SimulateRogue",
            "ShuffleSites and Rarefy are not modelled yet",
            "support ('positive probability') is proved in the ideal-source reading: an admissible tape exists for every admissible "
-           "outcome; the statistical support run of the property is not performed"]
+           "outcome; the statistical run (`rnd support`: 3000 independent runs per case, a missing outcome has probability < 1e-30 on an "
+           "ideal source) covers bootstrap sites, sampled rows, window offsets, sampled columns and row permutations only"]
 
 NT = "ACGT"
 AA = "ARNDCQEGHILKMFPSTWYV"
@@ -65,6 +66,20 @@ def gen(rng, tier):
         yield Case("rnd", ["rogue"] + base + [rng.choice(FR + ["2"]), rng.choice(FR + ["2"])], big, "rogue")
         if rng.random() < 0.2:
             yield Case("rnd", ["twice"] + base, big, "twice")
+    # distributional support: canonical alignments with distinct rows and columns, K independent runs per case
+    M = 12 if tier == "quick" else 120
+    for _ in range(M):
+        n = rng.choice([2, 3, 4])
+        L = rng.choice([2, 3, 5, 8, 10, 16])
+        rows = [("s%d" % i, "".join(AA[(j + 3 * i * (j // 4 + 1)) % 20] if i else AA[j] for j in range(L))) for i in range(n)]
+        seed = rng.randint(0, 2 ** 31 - 1)
+        base = [seed, 0, rows_str(rows)]
+        K = 3000
+        yield Case("rnd", ["support"] + base + ["bootstrap", rng.choice(["1", "1/2", "1/3", "3/4", "9/10"]), K], True, "support-bootstrap")
+        yield Case("rnd", ["support"] + base + ["sample", rng.randint(1, n), K], True, "support-sample")
+        yield Case("rnd", ["support"] + base + ["window", rng.randint(1, L), K], True, "support-window")
+        yield Case("rnd", ["support"] + base + ["columns", rng.randint(1, L), K], True, "support-columns")
+        yield Case("rnd", ["support"] + base + ["shuffle", "0", K], True, "support-shuffle")
 
 
 def shrink(c):
